@@ -445,6 +445,7 @@ type SGLongC int64
 type SGLongD int64
 type SGLongU int64 // never registered
 type SGLongNL int64 // registered with a union whose null branch is last
+type SGTagE string  // never registered itself; the UNNAMED types []SGTagE and map[string]SGTagE are
 type SGStrA string
 type SGStrB string
 type SGSliceA []int32
